@@ -22,7 +22,7 @@ from vlib.oracles import nu_integral
 PROPERTY_ID = "C03"
 ASSUMPTIONS = [
     "per-state rates of the level-l and level-(l-1) chains are those verified by C01",
-    "identity sum_k r_f(k) P(k->y) = r_c(y) checked at 1e-9 of the intensity (1-d) / 1e-7 (copula)",
+    "identity sum_k r_f(k) P(k->y) = r_c(y) checked at 1e-9 of the intensity (1-d) / 5e-6 in total variation (copula: accuracy of the library rectangle mass)",
 ]
 
 
@@ -299,8 +299,8 @@ def body_copula(case):
         for s in states_f:
             inc = tuple(si - oi for si, oi in zip(s, oc_f))
             rate = float(inv_f.probability_to_jump_to_state(inc)) * lam_f
-            if rate <= 1e-14 * lam_f:
-                continue
+            if rate <= 1e-9 * lam_f:
+                continue  # below the absolute accuracy of the library's rectangle mass
             par = _parity(inc)
             lo, hi, val = fine_cell(s)
             odd_axes = [k for k in range(d) if inc[k] % 2]
@@ -318,7 +318,15 @@ def body_copula(case):
                         a[k] = val[k]
                         target[k] = float(axes_f[k][s[k] + 1])
                 m = float(mt.mass(a, b)) if odd_axes else cell_mass
-                ref_k[tuple(target)] = max(m, 0.0) / cell_mass if cell_mass > 0 else 0.0
+                ref_k[tuple(target)] = max(m, 0.0)
+            # conditional law given the fine cell: normalised by the sum of the pieces (the library's rectangle
+            # mass is additive only up to ~1e-6 relative, see C12; the pieces are what the coarse cells receive)
+            tot_pieces = sum(ref_k.values())
+            if tot_pieces <= 0 or abs(tot_pieces - cell_mass) > 2e-5 * cell_mass + 1e-9 * lam_f:
+                out.append(Violation(f"{tag}/fine-cell-mass-is-not-the-sum-of-its-pieces/{par}",
+                                     f"fine state {s}: cell mass {cell_mass!r}, pieces {ref_k}; {detail}"))
+                raise StopIteration
+            ref_k = {t: v / tot_pieces for t, v in ref_k.items()}
             # black-box kernel through the coupling with scripted uniforms
             if odd_axes:
                 def f(u, _inc=inc):
@@ -377,9 +385,9 @@ def body_copula(case):
         return tot
 
     dist = tv(coupled)
-    if dist > 1e-7 * lam_c:
+    if dist > 5e-6 * lam_c:
         dist_ref = tv(coupled_ref)
-        if dist_ref <= 1e-7 * lam_c and "mixed" in kernel_bad:
+        if dist_ref <= 5e-6 * lam_c and "mixed" in kernel_bad:
             out.append(Violation("C03/copula/coarse-rates-not-reproduced/because-of-mixed-parity-kernel",
                                  f"sum_x r_f(x)P(x->y) differs from the level-0 rates by {dist:.3g} in total "
                                  f"(intensity {lam_c:.3g}); with the conditional law on mixed-parity states the "
